@@ -81,7 +81,7 @@ def _task(args):
     except BaseException as e:  # noqa
         import traceback
         st = dict(paths=0, ok=0, ignored=0, unknown=0, known=0, failed=0, exhausted=False, decisions=0,
-                  fails=[], goals={}, known_codes={}, samples=[], solver_queries=0, solver_s=0.0,
+                  fails=[], goals={}, goals_seen={}, known_codes={}, samples=[], solver_queries=0, solver_s=0.0,
                   solver_unknown=0, realizations=0, realization_sites={}, unknown_reasons={},
                   error="worker: %s: %s\n%s" % (type(e).__name__, e, traceback.format_exc()[-2000:]))
     st["ob"] = ob_d["name"]
@@ -225,30 +225,38 @@ def run_property(prop, obligations, tier, seed=0, workers=None, assumptions=(), 
         total_solver_s += rec["solver_s"]; total_unknown += rec["unknown"]
         if errs:
             harness_errors.append("%s: %s" % (ob.name, errs[0][:1500]))
-        goals = {}
+        goals = {}          # goal -> list of candidate witness models (non-fragile paths)
+        goals_seen = set()
         for s in sts:
-            for g, m in s["goals"].items():
-                goals.setdefault(g, m)
-        rec["goals_reached"] = sorted(goals)
-        fails = {}
+            for g, ms in s["goals"].items():
+                goals.setdefault(g, [])
+                if len(goals[g]) < 4:
+                    goals[g].extend(ms[:2])
+            goals_seen.update(s.get("goals_seen", {}).keys())
+        rec["goals_reached"] = sorted(goals_seen)
+        fails = {}          # code -> list of candidate failing paths
         for s in sts:
             for f in s["fails"]:
-                fails.setdefault(f["code"], f)
+                fails.setdefault(f["code"], []).append(f)
+        for code in fails:
+            fails[code].sort(key=lambda f: bool(f.get("fragile")))
+            fails[code] = fails[code][:4]
         rec["violations"] = []
-        per_ob[ob.name] = dict(rec=rec, sts=sts, exhausted=exhausted, goals=goals, fails=fails)
+        per_ob[ob.name] = dict(rec=rec, sts=sts, exhausted=exhausted, goals=goals, fails=fails, goals_seen=goals_seen)
         if ob.kind == "symx":
-            todo = [g for g in ob.goals if g in goals]
+            todo = [g for g in ob.goals if goals.get(g)]
             if not todo and goals:
-                todo = [sorted(goals)[0]]
+                todo = [g for g in sorted(goals) if goals[g]][:1]
             for g in todo:
-                path = write_replay(prop, ob, goals[g], g, "witness", directory=os.path.join(WORK, "witness"))
-                jobs.append(("witness", ob.name, g, path))
-            for code, f in fails.items():
-                if f["model"] is None:
-                    harness_errors.append("%s: no model for failing path %s: %s" % (ob.name, code, f["msg"]))
-                    continue
-                path = write_replay(prop, ob, f["model"], code, "cex")
-                jobs.append(("cex", ob.name, code, path))
+                for ci, m in enumerate(goals[g][:4]):
+                    path = write_replay(prop, ob, m, g, "witness", directory=os.path.join(WORK, "witness"))
+                    jobs.append(("witness", ob.name, (g, ci), path))
+            for code, cands in fails.items():
+                for ci, f in enumerate(cands):
+                    if f["model"] is None:
+                        continue
+                    path = write_replay(prop, ob, f["model"], code, "cex")
+                    jobs.append(("cex", ob.name, (code, ci), path))
     from concurrent.futures import ThreadPoolExecutor
     with ThreadPoolExecutor(max_workers=workers) as tp:
         futs = [(j, tp.submit(replay_file, j[3], j[0] == "witness", tolerate if j[0] == "witness" else ())) for j in jobs]
@@ -257,33 +265,52 @@ def run_property(prop, obligations, tier, seed=0, workers=None, assumptions=(), 
     for ob in obligations:
         d = per_ob[ob.name]
         rec, sts, exhausted, goals, fails = d["rec"], d["sts"], d["exhausted"], d["goals"], d["fails"]
-        missing = [g for g in ob.goals if g not in goals]
+        missing = [g for g in ob.goals if g not in d["goals_seen"]]
         if ob.kind == "symx":
             wit_ok = 0
-            for (kind, obn, g), (path, res) in replayed.items():
+            by_goal = {}
+            for (kind, obn, (g, ci)), (path, res) in replayed.items():
                 if kind != "witness" or obn != ob.name:
                     continue
-                if res and g in res.get("goals", []) and res.get("outcome") in ("ok", "known"):
-                    wit_ok += 1
-                    functions.update(res.get("functions", []))
+                ok = bool(res and g in res.get("goals", []) and res.get("outcome") in ("ok", "known"))
+                by_goal.setdefault(g, []).append((ok, ci, res))
+            for g, lst in by_goal.items():
+                good = [x for x in lst if x[0]]
+                if good:
+                    wit_ok += len(good)
+                    for _, ci, res in good:
+                        functions.update(res.get("functions", []))
                     if len(samples) < 6:
-                        samples.append(dict(obligation=ob.name, witness_for=g, inputs=goals[g], trace=res.get("trace", [])[-25:]))
+                        _, ci, res = good[0]
+                        samples.append(dict(obligation=ob.name, witness_for=g, inputs=goals[g][ci], trace=res.get("trace", [])[-25:]))
                 else:
-                    r2 = dict(res or {})
+                    r2 = dict(lst[0][2] or {})
                     r2.pop("functions", None)
-                    harness_errors.append("%s: witness for goal %r does not replay concretely: %s" % (
-                        ob.name, g, json.dumps(r2)[:900] if res else "timeout"))
+                    harness_errors.append("%s: no witness for goal %r replays concretely (%d candidates): %s" % (
+                        ob.name, g, len(lst), json.dumps(r2)[:900]))
+            for g in ob.goals:
+                if g in d["goals_seen"] and not goals.get(g) and exhausted and not fails:
+                    harness_errors.append("%s: goal %r only reached on paths inside a round-off tolerance band (no robust witness)" % (ob.name, g))
             validated += wit_ok
             rec["witnesses_replayed"] = wit_ok
             if missing and exhausted and not fails:
                 harness_errors.append("%s: coverage goal(s) unreachable (vacuous harness?): %s" % (ob.name, missing))
             if missing and not exhausted:
                 rec["goals_not_reached_before_budget"] = missing
-            for (kind, obn, code), (path, res) in replayed.items():
+            by_code = {}
+            for (kind, obn, (code, ci)), (path, res) in replayed.items():
                 if kind != "cex" or obn != ob.name:
                     continue
-                f = fails[code]
-                if res and res.get("outcome") == "fail":
+                by_code.setdefault(code, []).append((ci, path, res))
+            for code, lst in by_code.items():
+                lst.sort()
+                reproduced = [(ci, path, res) for ci, path, res in lst if res and res.get("outcome") == "fail"]
+                for ci, path, res in lst:
+                    if not reproduced or (ci, path, res) != reproduced[0]:
+                        if os.path.exists(path):
+                            os.remove(path)
+                if reproduced:
+                    ci, path, res = reproduced[0]
                     validated += 1
                     rcode = res.get("code")
                     if rcode in tolerate:
@@ -294,12 +321,15 @@ def run_property(prop, obligations, tier, seed=0, workers=None, assumptions=(), 
                     rec["violations"].append(dict(code=rcode, symbolic_code=code, replay=os.path.relpath(path, VERIF),
                                                   msg=res.get("msg", ""), trace=res.get("trace", [])[-25:]))
                 else:
-                    os.remove(path)
-                    r2 = dict(res or {})
+                    f = fails[code][0]
+                    r2 = dict(lst[0][2] or {})
                     r2.pop("functions", None)
-                    harness_errors.append("%s: counterexample for %s does not reproduce concretely "
-                                          "(encoding problem): sym msg=%s tb=%s replay=%s" % (
-                                              ob.name, code, f["msg"][:300], f.get("tb", "")[-600:], json.dumps(r2)[:600]))
+                    harness_errors.append("%s: counterexample for %s does not reproduce concretely in %d candidate(s) "
+                                          "(encoding problem or round-off-only effect): sym msg=%s tb=%s replay=%s" % (
+                                              ob.name, code, len(lst), f["msg"][:300], f.get("tb", "")[-600:], json.dumps(r2)[:600]))
+            for code, cands in fails.items():
+                if all(f["model"] is None for f in cands):
+                    harness_errors.append("%s: no model for failing path %s: %s" % (ob.name, code, cands[0]["msg"]))
         else:
             for s in sts:
                 validated += s.get("validated", 0)
@@ -307,7 +337,8 @@ def run_property(prop, obligations, tier, seed=0, workers=None, assumptions=(), 
                 for smp in s.get("samples", [])[:2]:
                     if len(samples) < 6:
                         samples.append(dict(obligation=ob.name, **smp) if isinstance(smp, dict) else smp)
-            for code, f in fails.items():
+            for code, cands in fails.items():
+                f = cands[0]
                 if f.get("reproduced"):
                     path = write_replay(prop, ob, f.get("model"), code, "cex")
                     violations.append((ob.name, code, path, f.get("msg", "")))
